@@ -10,7 +10,7 @@ class Prop(WalletProp):
             "other (out-of-order, overlapping) requests on the same wallet object; every section checked "
             "in Coq against Spec.derive_prv with the executable curve: account path/keys under the SLIP-132 version of (purpose, network), one row per "
             "index in order, WIF decodes to the key at the stated path, SEC = its compressed point, address = its P2PKH / P2SH-P2WPKH / P2WPKH; "
-            "MASTER echo; JSON text parsed back; Was: Wasabi export. Non-trivial = distinct (case, output).")
+            "MASTER echo; JSON text parsed back; Was: Wasabi export, incl. masters whose fingerprint starts with a zero nibble / zero byte. Non-trivial = distinct (case, output).")
 
     def gen_cases(self, rng, tier):
         T = tier == "thorough"
@@ -34,4 +34,20 @@ class Prop(WalletProp):
         cases.append({"kind": "Gen", "w": self.rand_wspec(rng, True), "account": 2, "lo": 1, "hi": 4, "pre": [(2, 0, 2), (2, 1, 3), (1, 0, 3)]})
         for testnet in (False, True):
             cases.append({"kind": "Was", "w": self.rand_wspec(rng, testnet)})
+        # master fingerprints with a leading zero nibble / a leading zero byte (Wasabi prints 8 hex digits)
+        import hashlib, hmac as _hmac
+        from props.bip32fam import pubkey_of_scalar, N
+        want = {"nibble": lambda f: f[0] != 0 and f[0] < 16, "byte": lambda f: f[0] == 0}
+        for j in range(4000):
+            if not want:
+                break
+            seed = hashlib.sha256(b"c06 wasabi %d %d" % (j, rng.randrange(2 ** 32))).digest()
+            il = int.from_bytes(_hmac.new(b"Bitcoin seed", seed, hashlib.sha512).digest()[:32], "big")
+            if not 0 < il < N:
+                continue
+            f = hashlib.new("ripemd160", hashlib.sha256(pubkey_of_scalar(il)).digest()).digest()[:4]
+            for name in list(want):
+                if want[name](f):
+                    cases.append({"kind": "Was", "w": {"seed": seed.hex(), "testnet": name == "byte"}})
+                    del want[name]
         return cases
